@@ -258,9 +258,13 @@ func runC50(c *fw.Ctx) {
 		reqs = nil
 	}
 	richTC := &treeCase{}
+	// the extra requests go first: one request each for shapes the enumeration
+	// below repeats many times, so a deadline should cut the enumeration's tail
+	var extraReqs []request
 	c50ExtraRequests(c, g, func(kind, treeish, prefix, fkind, format string, filters []string) {
-		reqs = append(reqs, request{richTC, -1, treeish, kind, prefix, strings.Join(filters, " "), fkind, format, filters})
+		extraReqs = append(extraReqs, request{richTC, -1, treeish, kind, prefix, strings.Join(filters, " "), fkind, format, filters})
 	})
+	reqs = append(extraReqs, reqs...)
 	c.Bound("requests", len(reqs))
 
 	type failure struct {
